@@ -518,12 +518,27 @@ class UncertainNumber:
 
     # * ---------------------binary operations---------------------#
 
-    def bin_ops(self, other, ops):
+    def bin_ops(self, other, ops, reflected=False):
+        """template of the binary operations
+
+        args:
+            - reflected (bool): when True compute ``other <ops> self`` for a plain number ``other``
+        """
         from ..pba.pbox_abc import convert_pbox
 
         # new_cons = ops(self._construct, other._construct)
         if is_un(other) == 0:
-            new_cons = ops(self._construct, other)
+            if reflected:
+                # Interval implements the reflected operators itself; the other
+                # constructs are converted to a p-box which does
+                me = (
+                    self._construct
+                    if isinstance(self._construct, Interval)
+                    else convert_pbox(self._construct)
+                )
+                new_cons = ops(other, me)
+            else:
+                new_cons = ops(self._construct, other)
         elif is_un(other) == 1:
             a = convert_pbox(self._construct)
             b = convert_pbox(other._construct)
@@ -534,7 +549,7 @@ class UncertainNumber:
             )
 
         new_un = UncertainNumber.fromConstruct(new_cons)
-        return pass_down_units(self, other, ops, new_un)
+        return pass_down_units(self, other, ops, new_un, reflected=reflected)
 
     def __add__(self, other):
         """add two uncertain numbers"""
@@ -545,6 +560,9 @@ class UncertainNumber:
 
     def __sub__(self, other):
         return self.bin_ops(other, operator.sub)
+
+    def __rsub__(self, other):
+        return self.bin_ops(other, operator.sub, reflected=True)
 
     def __mul__(self, other):
         """multiply two uncertain numbers"""
@@ -558,7 +576,7 @@ class UncertainNumber:
         return self.bin_ops(other, operator.truediv)
 
     def __rtruediv__(self, other):
-        return self.__truediv__(other)
+        return self.bin_ops(other, operator.truediv, reflected=True)
 
     def __pow__(self, other):
         """power of two uncertain numbers"""
@@ -747,7 +765,7 @@ class ParamSpecification:
             self._true_type = "pbox"
 
 
-def pass_down_units(a, b, ops, t):
+def pass_down_units(a, b, ops, t, reflected=False):
     """pass down the unit of the uncertain number
 
     args:
@@ -755,12 +773,14 @@ def pass_down_units(a, b, ops, t):
         - b: the second uncertain number
         - ops: the operation to be performed
         - t: the result uncertain number of the operation
+        - reflected: if True the operation is ``b <ops> a`` (``b`` a plain number)
     """
     if is_un(b) == 0:
         try:
-            new_q = ops(a._physical_quantity, b * a._physical_quantity.units)
+            b_q = b * a._physical_quantity.units
+            new_q = ops(b_q, a._physical_quantity) if reflected else ops(a._physical_quantity, b_q)
         except Exception:
-            new_q = ops(a._physical_quantity, b)
+            new_q = ops(b, a._physical_quantity) if reflected else ops(a._physical_quantity, b)
     elif is_un(b) == 1:
         new_q = ops(a._physical_quantity, b._physical_quantity)
 
